@@ -4,7 +4,8 @@
    (file type, position, path, the exception observed inside the loader, what main() did), the
    executable statement of the property on an observed outcome (holds_C20), the table of exception
    classes the loaders raise on malformed bytes (raises_table, established by the fault
-   enumeration; every theorem takes it as an explicit parameter), and the classes of the open findings. *)
+   enumeration; the general theorems take it as an explicit parameter, C20_full instantiates it).
+   No finding is open for C20: there is no carve-out. *)
 From Coq Require Import String Ascii List Bool ZArith.
 Require Import GT.PyBase.
 Import ListNotations.
@@ -19,9 +20,10 @@ Inductive conv := CNone | CStr | CRepr.   (* {x}  {x!s}  {x!r} *)
 Inductive piece := PLit (s : string) | PVal (e : vexpr) (c : conv) (spec : string).
 Record clause := { cl_classes : list string; cl_pieces : list piece }.
 
-(* ---- shape of main()'s  `if isinstance(X_tree, str): sys.stderr.write(..) .. return N` ---- *)
+(* ---- shape of main()'s  `if isinstance(X_tree, str): sys.stderr.write(..) .. return N`:
+        what is written to standard error, what to standard output, the status ---- *)
 Inductive write := WTree | WLit (s : string).
-Record main_err := { me_writes : list write; me_status : Z; me_skips_diff : bool }.
+Record main_err := { me_writes : list write; me_stdout : list write; me_status : Z; me_skips_diff : bool }.
 
 (* ---- strings ---- *)
 Fixpoint starts_with (p s : string) : bool :=
@@ -80,7 +82,8 @@ Definition raises_table (ft : string) : list string :=
   else if String.eqb ft "html" then ["xml.etree.ElementTree.ParseError"; "builtins.LookupError"]
   else if String.eqb ft "plist" then
     ["xml.parsers.expat.ExpatError"; "plistlib.InvalidFileException"; "builtins.ValueError";
-     "builtins.IndexError"; "builtins.LookupError"]
+     "binascii.Error"; "builtins.IndexError"; "builtins.LookupError";
+     "builtins.AttributeError"]   (* plistlib._date_from_string on a <date> that is no ISO 8601 date *)
   else [].
 
 Definition in_raises (c : c20_case) : bool :=
@@ -88,32 +91,3 @@ Definition in_raises (c : c20_case) : bool :=
   | Some e => existsb (String.eqb (e_class e)) (raises_table (c_ft c))
   | None => false
   end.
-
-(* ---- classes of the open findings (D13): which (file type, loader exception class) pairs the pinned
-        handlers are known not to cover; the carve-out of C20_partial ---- *)
-(* D13(a): the JSON5 handler formats the caught exception with the format spec "!s": TypeError escapes *)
-Definition gap_json5 (ft cls : string) : bool := String.eqb ft "json5".
-(* D13(b): the plist handler catches only ExpatError *)
-Definition gap_plist (ft cls : string) : bool :=
-  String.eqb ft "plist" && negb (String.eqb cls "xml.parsers.expat.ExpatError").
-(* D13(c): the JSON handler catches only JSONDecodeError: a file that is not valid UTF-8 escapes *)
-Definition gap_json (ft cls : string) : bool :=
-  String.eqb ft "json" && String.eqb cls "builtins.UnicodeDecodeError".
-(* D13(d): the XML/HTML handler catches only ParseError: an unknown declared encoding escapes as LookupError *)
-Definition gap_xml (ft cls : string) : bool :=
-  (String.eqb ft "xml" || String.eqb ft "html") && String.eqb cls "builtins.LookupError".
-Definition known_gap (ft cls : string) : bool :=
-  gap_json5 ft cls || gap_plist ft cls || gap_json ft cls || gap_xml ft cls.
-
-(* the same classes as predicates on an observed case (what escaped is part of the class) *)
-Definition crashed_with (c : c20_case) (k : string) : bool :=
-  match c_out c with Crash x => String.eqb x k | Exit _ _ _ => false end.
-Definition kf_case (gap : string -> string -> bool) (escaped : string -> string) (c : c20_case) : bool :=
-  match c_exn c with
-  | Some e => in_raises c && gap (c_ft c) (e_class e) && crashed_with c (escaped (e_class e))
-  | None => false
-  end.
-Definition kf_json5_format_spec : c20_case -> bool := kf_case gap_json5 (fun _ => "builtins.TypeError").
-Definition kf_plist_uncaught : c20_case -> bool := kf_case gap_plist (fun k => k).
-Definition kf_json_unicode : c20_case -> bool := kf_case gap_json (fun k => k).
-Definition kf_xml_encoding : c20_case -> bool := kf_case gap_xml (fun k => k).
